@@ -112,6 +112,13 @@ class Arg:
     def im(self, i):
         return self.val.lane(self.tid, i, base=self.val.size // 2)
 
+    # array of batches (kind R): accessor for row j
+    def row(self, j, old=False):
+        v = Val(self.ctype, "(%s%s + %d)" % ("OLD_" if (old and self.native) else "", self.scalar, j), self.tinfo, native=self.native)
+        if old and not self.native:
+            v = v.as_old()
+        return Arg("B", self.tid, self.aid, v)
+
     # memory (kind P): element i of the array the pointer addresses, as a bit pattern
     def elem(self, i, old=False):
         e = "%s[%d]" % (self.scalar, i)
@@ -164,6 +171,7 @@ class Ctx:
         self.args = []
         self.ret = None
         self.requires, self.ensures, self.assigns = [], [], []
+        self.variant = None
 
     def spec(self, name, *a):
         return "spec_%s_%s(%s)" % (name, self.T, ", ".join(a))
@@ -223,6 +231,11 @@ def bind(fn, sigjson, tinfo, native=False):
             a.is_bool = getattr(pt, "is_bool", False)
             ctx.args.append(a)
             ctx.ir_order.append(("ptr" if byref else "scalar", ip["name"], ip["type"]))
+        elif pt.kind == "rows":
+            a = Arg("R", pt.tid, pt.aid, scalar=ip["name"])
+            a.cname, a.ctype, a.const, a.tinfo, a.native = ip["name"], ip["type"], pt.const, tinfo, native
+            ctx.args.append(a)
+            ctx.ir_order.append(("mem", ip["name"], ip["type"]))
         elif pt.kind == "mem":
             a = Arg("P", pt.tid, None, scalar=ip["name"])
             a.cname, a.ctype, a.const = ip["name"], ip["type"], pt.const
@@ -315,9 +328,17 @@ def harness_text(ctx, name, hname="harness"):
             nbytes = getattr(ctx, "mem_bytes", {}).get(cname)
             if nbytes is None:
                 raise Unsupported("memory parameter %s without a size in its contract row" % cname)
+            eb = getattr(ctx, "end_is_begin_plus", None)
+            if eb and eb[0] == cname:
+                bk = [kk for kk, (kd, cn, ct) in enumerate(ctx.ir_order) if cn == eb[1]][0]
+                call.append("((%s)M%d + %d)" % (ctype, bk, eb[2]))
+                k += 1
+                continue
             # an object of exactly the accessed size: any access beyond it is a bounds failure
             L.append("  u8 *M%d = (u8*)__CPROVER_allocate(%d, 0);" % (k, nbytes))
             L.append("  __CPROVER_assume(M%d != 0);" % k)
+            for line in getattr(ctx, "harness_mem_init", {}).get(cname, []):
+                L.append("  " + line.replace("{M}", "M%d" % k))
             for j in range(nbytes):
                 L.append("  u8 OBS_%d_%d = M%d[%d];" % (k, j, k, j))
                 obs.append(("OBS_%d_%d" % (k, j), k, kind, j, 1, "u"))
